@@ -9,6 +9,7 @@ CONSTANTS
   IdsIdentifyContent = TRUE
   IncOf <- MCIncOf
   KeepHigherIncarnation = FALSE
+  ReuseUnattested = FALSE
   StateEarly = FALSE
   InitScenarios = {"fresh"}
   InitDocs <- DocsEmptyId
